@@ -15,7 +15,9 @@ RULE = ("stack programs over SpecifierSet objects: clause multisets (operators x
         "str.lower(); separators U+0085 / U+2028 / U+001C; mutated and bounded-exhaustive set texts; "
         "non-trivial = the set was constructed and something was observed; distinct by program text")
 ASSUMPTIONS = ["iteration order of the frozenset is not observed except through str() (sorted) - the model treats it as an arbitrary permutation",
-               "hash(): only 'equal sets have equal hashes' is observed"]
+               "hash(): only 'equal sets have equal hashes' is observed",
+               "numbers in generated versions stay far below the interpreter's 4300-digit int conversion limit; the model has no digit limit "
+               "(beyond it the code raises InvalidVersion since 71d4b23, finding D10) and no theorem is claimed for such inputs"]
 TRUSTED_EXTRA = ["CPython set semantics for equal elements: the element already present is kept (frozenset(iterable), a | b) - modelled as first occurrence"]
 
 ALPHA = [",", " ", "=", ">", "1", "0", ".", "*", "a"]
